@@ -8,7 +8,20 @@ import os
 
 from vlib import core, tlc
 
-ACTIONS = ["MCNext"]
+MANIFEST = {
+    "engine": {"name": "txn", "path": "spec/txn",
+               "kind_free_text": "TLA+ Txn/TxnMC (TLC exhaustive + edge-cover export) -> harness txn_replay on real Transaction"},
+    "category": "model_checking",
+    "text": ("TLC checks read-your-writes, exact savepoints, discard, mode errors and commit order on every "
+             "reachable state of the bounded Txn model (the code's write-set representation next to ghost "
+             "variables that state the property); every transition TLC explores is exported as a program and "
+             "executed on a real Transaction, with probe reads after the last step, a concurrent reader and a "
+             "fresh reader after drop / commit. Long random behaviours of the same spec (-simulate) extend the depth."),
+    "design_ref": "DESIGN.md §4 C08",
+    "note": ("Bounds: 2-3 keys, 2 values, 2 explicit timestamps, savepoint depth <= 3, exhaustive programs <= 5 steps, "
+             "random ones <= 30. Trusted: TLC, the key/value byte mapping in harness/src/keys.rs, the driver's comparison."),
+    "technique": "TLA+ model checking (TLC) + spec-to-implementation transition replay",
+}
 
 
 def export_and_replay(ctx, max_steps, extra_cfg=None, name="edge", versioning=False, workers=None, sim=None):
